@@ -139,6 +139,9 @@ type Explorer struct {
 	// obligation as undecided instead of running out of memory.
 	MaxPaths  int
 	Exhausted bool
+	// ResolveCallee, when set, may name the function a dynamic call goes to on this path
+	// (a rule that seeded the key of a constant registry knows which entry is called).
+	ResolveCallee func(c *ssa.CallCommon, st *State) *ssa.Function
 }
 
 // Outcome is the summary of one feasible path.
@@ -604,13 +607,10 @@ func (e *Explorer) inlinable(c *ssa.CallCommon, st *State) *ssa.Function {
 		return nil
 	}
 	var callee *ssa.Function
-	if c.IsInvoke() {
-		cs := e.P.Callees(c)
-		if len(cs) != 1 {
-			return nil
-		}
-		callee = cs[0]
-	} else {
+	if e.ResolveCallee != nil {
+		callee = e.ResolveCallee(c, st)
+	}
+	if callee == nil {
 		cs := e.P.Callees(c)
 		if len(cs) != 1 {
 			return nil
